@@ -129,10 +129,13 @@ const (
 	aError
 	aUnparsable
 	aWrongStart
+	aGoodThenGarbage
+	aGoodThenUnlinked
+	aGoodThenReordered
 	nAnswers
 )
 
-var answerNames = []string{"correct", "one block", "truncated", "reordered", "forged block", "empty", "error", "unparsable", "starts one block too low"}
+var answerNames = []string{"correct", "one block", "truncated", "reordered", "forged block", "empty", "error", "unparsable", "starts one block too low", "one good block then unparsable bytes", "one good block then an unlinked block", "one good block then the rest out of order"}
 
 type peer struct {
 	chain []*hblock
@@ -197,6 +200,24 @@ func (p *peer) FetchBlocksFromPeer(_ context.Context, _ ids.NodeID, req *vw.Bloc
 	case aWrongStart:
 		if len(good) > 1 {
 			good = good[1:]
+		}
+		return &vw.BlockFetchResponse{Blocks: good}, nil
+	case aGoodThenGarbage:
+		// a valid prefix followed by a bad block: the prefix must be kept, the rest asked for again
+		if len(good) > 1 {
+			good = append([][]byte{good[0]}, []byte{1, 2, 3})
+		}
+		return &vw.BlockFetchResponse{Blocks: good}, nil
+	case aGoodThenUnlinked:
+		if len(good) > 1 && req.BlockHeight >= 1 {
+			real := p.chain[req.BlockHeight-1]
+			f := &hblock{parent: real.parent, ts: real.ts, height: real.height, forged: true, txs: []*htx{{id: ids.ID{0xFE, byte(real.height)}}}}
+			good = append([][]byte{good[0], f.GetBytes()}, good[2:]...)
+		}
+		return &vw.BlockFetchResponse{Blocks: good}, nil
+	case aGoodThenReordered:
+		if len(good) > 2 {
+			good = append([][]byte{good[0], good[2], good[1]}, good[3:]...)
 		}
 		return &vw.BlockFetchResponse{Blocks: good}, nil
 	}
@@ -396,7 +417,7 @@ func main() {
 	r.Cov["scenarios"] = len(scenarios)
 	r.Cov["preemption_bound"] = preBound
 	r.Cov["deviation_bound"] = devBound
-	r.Cov["rule"] = fmt.Sprintf("%d chains x every sequence of peer answers with at most %d non-correct answers from {one block, truncated, reordered, forged block, empty, error, unparsable, starts too low, no peer available} (then correct answers) x every interleaving of fetcher, syncer and waiter within %d preemptions; step horizon 4000 per execution", len(scenarios), devBound, preBound)
+	r.Cov["rule"] = fmt.Sprintf("%d chains x every sequence of peer answers with at most %d non-correct answers from {one block, truncated, reordered, forged block, empty, error, unparsable, starts too low, good prefix then unparsable / unlinked / out-of-order tail, no peer available} (then correct answers) x every interleaving of fetcher, syncer and waiter within %d preemptions; step horizon 4000 per execution", len(scenarios), devBound, preBound)
 	r.Assumptions = []string{"the syncing node knows only the target (state sync); peers serve blocks by height as the real handler does", "sleeps are virtual (yield); the request timeout is a peer answer (error)", "sequential consistency"}
 	r.Finish()
 }
